@@ -1,4 +1,5 @@
 import VibeProof.Model.BinCodec
+import VibeProof.Model.BinTypes
 import VibeProof.Lemmas.BinCodec
 /-
 C18 — native save/load round-trips the database (binary format, byte level).
@@ -305,5 +306,56 @@ example : FileContent.WF exampleFile := by
     refine ⟨by decide, by decide, by decide, 1, by decide, ?_, ?_⟩
     · intro r hr; simp at hr; rcases hr with h | h <;> subst h <;> rfl
     · intro r hr v hv; simp at hr; rcases hr with h | h <;> subst h <;> simp at hv <;> subst hv <;> decide
+
+/-! ### T3: column types through the catalog text (`format_data_type` / `parse_data_type`) -/
+
+open VibeProof.BinTypes in
+/-- the full statement: every column type survives the catalog text -/
+def C18_type_roundtrip_full : Prop := ∀ t : DataType, parseDataType (formatDataType t) = some t
+
+open VibeProof.BinTypes in
+/-- the types without parameters that the text identifies -/
+def plainType : DataType → Prop
+  | .integer | .smallint | .bigint | .unsigned | .real | .double | .boolean | .date
+  | .time false | .timestamp _ | .varchar none => True
+  | _ => False
+
+open VibeProof.BinTypes in
+/-- **T3 (partial).** holds for the parameterless types -/
+theorem C18_type_roundtrip_partial (t : DataType) (h : plainType t) :
+    parseDataType (formatDataType t) = some t := by
+  cases t <;> simp only [plainType] at h <;> try decide
+  all_goals (rename_i x; cases x <;> first | decide | exact absurd h (by simp [plainType]))
+
+open VibeProof.BinTypes in
+example : plainType (.timestamp true) := trivial
+
+open VibeProof.BinTypes in
+/-- parameterised types at the sizes the generators use (checked instances, not a proof for
+    every size: the general statement needs the decimal printer/parser round trip) -/
+theorem C18_type_roundtrip_instances :
+    parseDataType (formatDataType (.varchar (some 40))) = some (.varchar (some 40)) ∧
+    parseDataType (formatDataType (.character 6)) = some (.character 6) ∧
+    parseDataType (formatDataType (.float 24)) = some (.float 24) ∧
+    parseDataType (formatDataType (.numeric 10 2)) = some (.numeric 10 2) ∧
+    parseDataType (formatDataType (.decimal 8 3)) = some (.decimal 8 3) ∧
+    parseDataType (formatDataType (.numeric 38 0)) = some (.numeric 38 0) := by decide
+
+open VibeProof.BinTypes in
+/-- **T3 counterexamples** (each replayed on the real code by the harness probes):
+    INTERVAL, BIT, a user-defined type name are written as text the reader rejects;
+    TIME WITH TIME ZONE and NAME come back as other types -/
+theorem C18_type_roundtrip_counterexample : ¬ C18_type_roundtrip_full := by
+  intro h
+  exact absurd (h (.time true)) (by decide)
+
+open VibeProof.BinTypes in
+theorem C18_type_counterexamples :
+    parseDataType (formatDataType (.interval .year none)) = none ∧
+    parseDataType (formatDataType (.bit (some 4))) = none ∧
+    parseDataType (formatDataType (.userDefined "TINYINT".toList)) = none ∧
+    parseDataType (formatDataType (.time true)) = some (.time false) ∧
+    parseDataType (formatDataType .name) = some (.varchar (some 128)) ∧
+    parseDataType (formatDataType (.userDefined "INTEGER".toList)) = some .integer := by decide
 
 end VibeProof.C18
